@@ -175,6 +175,11 @@ def check(prog, rep):
         for k in kinds:
             a = d.handler(prog, k)
             ok = a is not None or default_delegates
+            if not ok and any((isinstance(n_, ast.Name) and n_.id == k) or (isinstance(n_, ast.Attribute) and n_.attr == k) for n_ in ast.walk(fi.node) if not isinstance(getattr(n_, "_parent", None), (ast.ImportFrom, ast.alias))):
+                # named in the builder (a table, a tuple bound elsewhere, a pattern) though not in an isinstance arm this
+                # rule reads: not an absence
+                rep.undecided(f"{fi.name}: {k} is mentioned in the builder but not in an isinstance arm of its dispatch chain; whether it is compiled is not decided")
+                continue
             rep.ob("R01.1", fi.name, ok,
                    f"{k} is compiled by the arm at line {a.lineno}" if a is not None else (f"{k} is delegated to the sibling builder" if ok else
                    f"{label} evaluator builder has no arm for {k}: compile_expression raises for an expression kind the API can construct"),
